@@ -193,7 +193,8 @@ fn parse_v_text_directive(jsx_attr: &JSXAttr) -> Directive {
                 (**expr).clone()
             }
         }
-        None => {
+        // no value, `{}`, or an element / fragment as the value
+        _ => {
             HANDLER.with(|handler| {
                 handler.span_err(
                     jsx_attr.span,
@@ -205,7 +206,6 @@ fn parse_v_text_directive(jsx_attr: &JSXAttr) -> Directive {
                 value: true,
             }))
         }
-        _ => unreachable!(),
     };
 
     Directive::Text(expr)
@@ -226,7 +226,8 @@ fn parse_v_html_directive(jsx_attr: &JSXAttr) -> Directive {
                 (**expr).clone()
             }
         }
-        None => {
+        // no value, `{}`, or an element / fragment as the value
+        _ => {
             HANDLER.with(|handler| {
                 handler.span_err(
                     jsx_attr.span,
@@ -238,7 +239,6 @@ fn parse_v_html_directive(jsx_attr: &JSXAttr) -> Directive {
                 value: true,
             }))
         }
-        _ => unreachable!(),
     };
 
     Directive::Html(expr)
